@@ -160,7 +160,8 @@ for fi, forest in enumerate(json.load(sys.stdin)):
             base = Root if nd["parent"] is None else classes[nd["parent"]]
             ns = {"__init__": _init, "__module__": "c08synthetic"}
             if nd["aliases"] is not None:
-                ns["aliases"] = set(nd["aliases"])
+                # the alias container a user class declares: a set, or any other container of names (frozenset, tuple)
+                ns["aliases"] = [set, frozenset, set, tuple][nd["k"] % 4](nd["aliases"])
             cls = type("S%d" % nd["k"], (base,), ns)
             classes[nd["k"]] = cls
             keyof[id(cls)] = nd["k"]
